@@ -36,7 +36,7 @@ PREDEF = {
     ("gfa1", "H"): {"VN": "Z", "TS": "i"},
     ("gfa1", "S"): {"LN": "i", "RC": "i", "FC": "i", "KC": "i", "SH": "H", "UR": "Z"},
     ("gfa1", "L"): {"MQ": "i", "NM": "i", "RC": "i", "FC": "i", "KC": "i", "ID": "Z"},
-    ("gfa1", "C"): {"MQ": "i", "NM": "i", "ID": "Z"},
+    ("gfa1", "C"): {"RC": "i", "NM": "i", "ID": "Z"},      # (GFA1 specification; MQ on a C line is not predefined)
     ("gfa1", "P"): {},
     ("gfa2", "H"): {"VN": "Z", "TS": "i"},
     ("gfa2", "S"): {"RC": "i", "FC": "i", "KC": "i", "SH": "H", "UR": "Z"},
@@ -68,9 +68,17 @@ def tag_ok(field, predefined):
                     return "invalid", n
                 if not (BRANGE[st][0] <= int(x) <= BRANGE[st][1]):
                     return "invalid", n
+        else:
+            try:
+                if any(float(x) in (float("inf"), float("-inf")) for x in vals):
+                    return "unspec", n      # matches the grammar but overflows a double
+            except Exception:
+                pass
     if t == "J":
+        def _no_constant(name):
+            raise ValueError(name)       # NaN, Infinity, -Infinity are not JSON
         try:
-            o = json.loads(v)
+            o = json.loads(v, parse_constant=_no_constant)
         except Exception:
             return "invalid", n
         if not isinstance(o, (list, dict)):
@@ -97,8 +105,10 @@ def recognise(text, version):
     if text == "":
         return "unspec"
     if text.startswith("#"):
-        return "valid"
-    if "\n" in text or "\r" in text:
+        return "valid" if "\n" not in text else "unspec"
+    if "\n" in text:
+        return "invalid"        # no field of any record admits a line break
+    if "\r" in text:
         return "unspec"
     if _LONGNUM.search(text):
         # a number longer than the implementation language converts: grammatical, but an implementation limit
